@@ -71,9 +71,14 @@ func H19Merge() {
 			break
 		}
 	}
-	vndAssert((rerr == nil) == (err == nil), "merge-order-does-not-change-emptiness")
-	if rerr == nil && err == nil {
-		vndAssert(h19Den(rev, v) == h19Den(merged, v), "merge-order-does-not-change-the-denotation")
+	// Whether an empty conjunction is detected at merge time (io.EOF) or only
+	// later (a part such as k:"" is rejected when the SQL is generated) may
+	// depend on the order; the meaning may not.
+	if rerr != nil {
+		vndAssert(rerr == io.EOF, "merge-error-is-eof")
+		vndAssert(!want, "eof-only-when-no-value-can-satisfy-the-conjunction")
+	} else {
+		vndAssert(h19Den(rev, v) == want, "merge-order-does-not-change-the-denotation")
 	}
 }
 
